@@ -312,6 +312,38 @@ Proof. unfold rfuel. apply Nat.leb_le. reflexivity. Qed.
 Definition names_ok (m : list ds) (target : string) : Prop :=
   plain target = true /\ forall x, In x (declared_methods m) -> plain x = true.
 
+Lemma rchain_rev_edge_ok : forall m st target c g,
+    In (REdge c g) (snd (build_rcall_chain st (method_call_map m) target)) ->
+    str_mem c (spec_callers m g) = true /\ str_mem g (rreach m target) = true.
+Proof.
+  intros m st target c g Hin. unfold build_rcall_chain in Hin.
+  set (mm := method_call_map m) in *.
+  assert (Hcallers : forall x, callers mm x = spec_callers m x).
+  { intros x. unfold callers, mm. apply rcall_map_exact. }
+  destruct (rchain_sound mm rfuel rstate0 target c g Hin) as [H1 H2]. split.
+  - apply str_mem_In. now rewrite <- Hcallers.
+  - apply str_mem_In. unfold rreach. eapply reach_within_complete.
+    + eapply ReachN_ext; [exact Hcallers|exact H2].
+    + pose proof rfuel_le_16. lia.
+Qed.
+
+Lemma rchain_names_plain : forall m st target,
+    names_ok m target ->
+    names_plain (map stmt_of (snd (build_rcall_chain st (method_call_map m) target))).
+Proof.
+  intros m st target [Hpt Hpd] a b Hin.
+  set (mm := method_call_map m) in *.
+  assert (Hin' : In (REdge a b) (snd (build_rcall_chain st mm target))).
+  { apply stmt_edges_in. unfold stmt_edges. apply in_flat_map. exists (SEdge a b). split; [assumption|now left]. }
+  unfold build_rcall_chain in Hin'.
+  destruct (rchain_sound mm rfuel rstate0 target a b Hin') as [H1 H2].
+  assert (Hdecl : forall x y, In x (callers mm y) -> plain x = true).
+  { intros x y Hx. apply Hpd. unfold callers, mm in Hx. now apply rcall_map_values_declared in Hx. }
+  split; [eapply Hdecl; eassumption|].
+  apply ReachN_target_or_succ in H2. destruct H2 as [H2|[h H2]]; [now subst|].
+  eapply Hdecl; eassumption.
+Qed.
+
 Theorem ranalysis_meets_spec : forall st m target,
     names_ok m target ->
     let out := snd (ranalysis st target m) in
